@@ -320,6 +320,7 @@ func TestVerif_C11_Findings(t *testing.T) {
 		{sig: vfC11SigRoleSeq, sc: vfC11Scenario{Kind: "role-delete", DefaultColl: true, Purge: true}, fault: vfC11FirstOp(vs.OpDelete, mk.RoleKey("r1")), action: vs.FailBefore},
 		{sig: vfC11SigCasSave, sc: vfC11Scenario{Kind: "role-delete", DefaultColl: true, Purge: false}, fault: vfC11FirstOp(vs.OpWriteCas, mk.RoleKey("r1")), action: vs.FailBefore},
 		{sig: vfC11SigEmail, sc: vfC11Scenario{Kind: "user-create", DefaultColl: true, PUpd: vfC11PrincUpd{Chans: []string{"A"}, Disabled: -1, Email: "x@example.com"}}, fault: vfC11FirstOp(vs.OpSet, mk.UserEmailKey("")), action: vs.FailBefore},
+		{sig: vfC11SigRevBody, sc: vfC11Scenario{Kind: "push", DefaultColl: true, AllowConflicts: true, Pre: []vfC11DocState{{V: 1, Chans: []string{"A"}, Big: true}, {V: 2, Chans: []string{"A"}, Big: true}}, New: vfC11DocState{V: 3, Chans: []string{"A"}, Big: true}, PushParent: 0}, fault: vfC11FirstOp(vs.OpAddRaw, base.RevBodyPrefix), action: vs.FailBefore},
 		{sig: vfC11SigExtDel, sc: vfC11Scenario{Kind: "import", DefaultColl: true, Pre: []vfC11DocState{live}, New: vfC11DocState{V: 2, Chans: []string{"A"}}, External: "delete", ImportVia: "put"}, fault: func([]vs.Op) int { return 0 }},
 	}
 	for _, r := range repros {
